@@ -155,3 +155,32 @@ impl DecodeReaderBytesBuilder {
                 r.sniffs_encoding() == (self.sniffing() && !self.forced_encoding()),
     { unimplemented!() }
 }
+
+// ---- writer side (to_io_writer_with_options): std::io::Write as a byte sink that may fail at any write ----
+#[verifier::external_body]
+pub struct ByteSink { _p: () }
+impl ByteSink {
+    pub uninterp spec fn written(&self) -> Seq<u8>;
+    /// `io::Write::write_all`: Ok means every byte was written; on Err an unspecified prefix may have been (std documentation)
+    #[verifier::external_body]
+    pub fn write_all(&mut self, b: &[u8]) -> (r: Result<(), IoErr>)
+        ensures match r {
+            Ok(_) => final(self).written() == old(self).written() + b@,
+            Err(_) => exists|k: int| 0 <= k <= b@.len() && final(self).written() == old(self).written() + #[trigger] b@.take(k) },
+    { unimplemented!() }
+}
+/// `std::fmt::Error` (unit-like)
+pub struct FmtErr;
+/// crate::ser::Error, opaque except for "is the I/O error e"
+#[verifier::external_body]
+pub struct SerErr { _p: () }
+pub uninterp spec fn ser_err_io(e: SerErr) -> Option<IoErr>;
+/// `crate::ser::Error::from(io::Error)`
+#[verifier::external_body]
+fn ser_error_from_io(e: IoErr) -> (r: SerErr) ensures ser_err_io(r) == Some(e), { unimplemented!() }
+/// `c.encode_utf8(&mut buf)`
+#[verifier::external_body]
+fn char_encode_utf8<'a>(c: char, buf: &'a mut [u8; 4]) -> (r: &'a str) ensures r@ == seq![c], { unimplemented!() }
+/// `s.as_bytes()`
+#[verifier::external_body]
+fn str_as_bytes<'a>(s: &'a str) -> (r: &'a [u8]) ensures r@ == s.spec_bytes(), { s.as_bytes() }
